@@ -675,9 +675,44 @@ impl<'a, H: HashAlgorithm> Exec<'a, H> {
         Ok(())
     }
 
+    /// C17: no region the previous durable image references is touched before the switch-over
+    /// record of this sync is durable.
+    fn check_intact(&mut self, before: &crate::decoder::LiveSet) -> R<()> {
+        let main = self.disk.main_dir_id();
+        let tr: Vec<crate::disk::EventRec> = self.disk.trace().into_iter().filter(|e| e.step == self.step && e.dir == main && !e.failed && !matches!(e.kind, 'L' | 'U')).collect();
+        let Some(mf) = tr.iter().position(|e| e.site == "meta.fsync") else { return Ok(()) };
+        for e in &tr[..=mf] {
+            let page = (e.off / 4096) as u32;
+            let bad: Option<String> = match (e.file.as_str(), e.kind) {
+                ("ln", 'w') if before.ln.contains(&page) => Some(format!("write to ln page {page}, which the previous image references")),
+                ("bbn", 'w') if before.bbn.contains(&page) => Some(format!("write to bbn page {page}, which the previous image references")),
+                ("ln", 'l') if (e.off / 4096) < before.ln_bump as u64 => Some(format!("ln resized to {} pages, below the previous frontier {}", e.off / 4096, before.ln_bump)),
+                ("bbn", 'l') if (e.off / 4096) < before.bbn_bump as u64 => Some(format!("bbn resized to {} pages, below the previous frontier {}", e.off / 4096, before.bbn_bump)),
+                ("ht", 'w') | ("ht", 'l') | ("ht", 'u') => Some(format!("{} on the hash-table file (page {page}) before the switch-over", e.site)),
+                (f, 'u') if before.rb_live.iter().any(|(n, _)| n == f) => Some(format!("unlink of rollback segment {f}, which holds live records")),
+                (f, 'l') if before.rb_live.iter().any(|(n, len)| n == f && e.off < *len) => Some(format!("rollback segment {f} truncated to {} bytes, below its previous extent", e.off)),
+                (f, 'w') if f.starts_with("rollback.") => Some(format!("in-place write to rollback segment {f}")),
+                _ => None,
+            };
+            if let Some(b) = bad { return Err(self.v("C17", "live-region-touched-before-switch", format!("event {} ({}): {b}; the meta fsync is event {}", e.ev, e.site, tr[mf].ev))); }
+        }
+        rep!(self).rules_checked += 1;
+        Ok(())
+    }
+
     pub fn step(&mut self, i: usize, st: &Step) -> R<()> {
         self.step = i;
         self.disk.begin_step(i);
+        let live_before = if self.scen.checks.intact && matches!(st, Step::Commit { .. } | Step::OvCommit { .. } | Step::Rollback { .. } | Step::CommitPrepared { .. }) {
+            let img = crate::decoder::decode(&self.dir).map_err(|e| self.v("C16", "decode-failed", e))?;
+            Some(crate::decoder::live_set(&img))
+        } else { None };
+        let r = self.step_inner(i, st);
+        if r.is_ok() { if let Some(b) = live_before { self.check_intact(&b)?; } }
+        r
+    }
+
+    fn step_inner(&mut self, i: usize, st: &Step) -> R<()> {
         let prop = self.prop.clone();
         match st {
             Step::Commit { batch, nonblocking } => {
